@@ -20,7 +20,7 @@ Theorem C06_facts_pinned :
     [(Add, Add); (Sub, Sub); (Mul, Mul); (Div, Div); (Pow, Pow); (Mod, Mod); (FloorDiv, FloorDiv)]
     [(UAdd, UAdd); (USub, USub)]
     [(Gt, RelGt); (GtE, RelGe); (Lt, RelLt); (LtE, RelLe); (CEq, RelEq); (CNe, RelNe)]
-    true SubsSim TupSim StmtRaise (CfContinuation BrCopy BrCopy) true true true ConstAtCall.
+    true SubsSim TupSim StmtRaise (CfContinuation BrCopy BrCopy) true true true ConstAtCall C06_expected_fallback C06_expected_arity.
 Proof. vm_compute. reflexivity. Qed.
 Print Assumptions C06_facts_pinned.
 
@@ -33,19 +33,34 @@ Theorem C06_translation_terminates :
 Proof. exact never_out_of_fuel. Qed.
 Print Assumptions C06_translation_terminates.
 
+(** ... and for every sharing discipline of the if block (the table-threading variant model): the
+    regression theorems below are about real results, not about exhausted fuel *)
+Theorem C06_translation_terminates_every_shape :
+  forall fs S G bi be body sigma,
+    fst (tbody_sh fs S G bi be (Datatypes.S (ssize body)) body body sigma) <> TOutOfFuel.
+Proof. exact threaded_never_out_of_fuel. Qed.
+Print Assumptions C06_translation_terminates_every_shape.
+
 (** SOUNDNESS, model_args = None.  For every module, every function i of it: if the translator
     returns an expression e over the function's own argument names ps, then at every argument
     point vs where the function has a value v, e has the value v (under every valuation that gives
     the arguments their values).  Covers local (re)assignments incl. of parameters, tuple
     assignments, if/elif/else with assignments and/or returns in any branch and code after them,
     conditional expressions, ==, != and chained comparisons, calls into earlier functions, module
-    constants. *)
+    constants.
+    Since the deepening pass definitions may have DEFAULT arguments, so a function has values at shorter
+    argument lists too: the theorem speaks about the argument lists of full arity (hypothesis, was a
+    conclusion), and carries [arity_ok]: [True] once fixes/C06-empty-call-arity.diff is in (ArityStrict),
+    and for the shipped arity rule the guard "no definition has ALL its parameters defaulted" -- its
+    complement is the recorded finding zero-arg-call-of-defaulted-helper (C06_empty_call_refuted). *)
 Theorem C06_sound_unrenamed :
   forall fds i ps e vs v rho,
+    arity_ok gen_fnsym_facts fds ->
     nth_error (summaries gen_fnsym_facts fds) i = Some (Some (ps, e)) ->
     py_call fds i vs = Some v ->
+    length ps = length vs ->
     (forall x q, assoc x (combine ps vs) = Some q -> rho x = Some q) ->
-    length ps = length vs /\ seval rho e = Some v.
+    seval rho e = Some v.
 Proof. exact (sound_unrenamed gen_fnsym_facts C06_facts_pinned). Qed.
 Print Assumptions C06_sound_unrenamed.
 
@@ -55,6 +70,7 @@ Print Assumptions C06_sound_unrenamed.
     function has a value there, the returned expression has that value. *)
 Theorem C06_sound :
   forall fds i margs e vs v rho,
+    arity_ok gen_fnsym_facts fds ->
     margs <> [] ->
     fn_to_sympy gen_fnsym_facts fds i margs = Some e ->
     py_call fds i vs = Some v ->
@@ -113,6 +129,7 @@ Print Assumptions C06_refusal_visible_module.
     function as it computes NOW, whatever happened before. *)
 Theorem C06_sound_every_constant_environment :
   forall first now ms i margs e vs v rho,
+    arity_ok gen_fnsym_facts (map (at_env now) ms) ->
     margs <> [] ->
     translate gen_fnsym_facts first now ms i margs = Some e ->
     py_value now ms i vs = Some v ->
@@ -123,10 +140,12 @@ Print Assumptions C06_sound_every_constant_environment.
 
 Theorem C06_sound_every_constant_environment_unrenamed :
   forall first now ms i ps e vs v rho,
+    arity_ok gen_fnsym_facts (map (at_env now) ms) ->
     translate_summary gen_fnsym_facts first now ms i = Some (ps, e) ->
     py_value now ms i vs = Some v ->
+    length ps = length vs ->
     (forall x q, assoc x (combine ps vs) = Some q -> rho x = Some q) ->
-    length ps = length vs /\ seval rho e = Some v.
+    seval rho e = Some v.
 Proof. exact (sound_constants_unrenamed gen_fnsym_facts C06_facts_pinned). Qed.
 Print Assumptions C06_sound_every_constant_environment_unrenamed.
 
@@ -173,6 +192,45 @@ Theorem C06_sequential_tuple_refuted :
     seval rho e <> Some v.
 Proof. exact seq_tuple_wrong. Qed.
 Print Assumptions C06_sequential_tuple_refuted.
+
+(** ARITY of nested calls and DEFAULT arguments.
+    (a) zip without strict (seeded C07-6): `hill(s, vmax) = vmax * saturation(s)` with `def saturation(s, n=2.0)`
+        is accepted and the helper's n stays a bare symbol: with a model component called n = 4 the expression
+        gives 3/2 * 16/17 where Python gives 6/5;  both strict rules refuse it.
+    (b) the SHIPPED rule skips the strict zip for an EMPTY argument list: `caller0(a) = a + allopt()` with
+        `def allopt(n=2.0)` is accepted with n as a free symbol (Python: 7) -- the code violates the property
+        outside the guard [arity_ok]; with `if model_args is not None:` (ArityStrict) it is refused. *)
+Theorem C06_truncating_zip_refuted :
+  exists e rho,
+    fn_to_sympy (facts_arity ArityTruncate) [w_saturation; w_hill] 1 [SSym 1%N; SSym 3%N] = Some e /\
+    py_call [w_saturation; w_hill] 1 [2#1; 3#2] = Some (6#5) /\
+    Forall2 (fun m x => seval rho m = Some x) [SSym 1%N; SSym 3%N] [2#1; 3#2] /\
+    seval rho e <> Some (6#5).
+Proof. exact truncating_zip_wrong. Qed.
+Print Assumptions C06_truncating_zip_refuted.
+
+Theorem C06_strict_zip_refuses_short_call :
+  fn_to_sympy (facts_arity ArityStrict) [w_saturation; w_hill] 1 [SSym 1%N; SSym 3%N] = None /\
+  fn_to_sympy (facts_arity ArityStrictNonEmpty) [w_saturation; w_hill] 1 [SSym 1%N; SSym 3%N] = None /\
+  py_call [w_saturation; w_hill] 1 [2#1; 3#2] = Some (6#5).
+Proof. exact strict_zip_refuses_short_call. Qed.
+Print Assumptions C06_strict_zip_refuses_short_call.
+
+Theorem C06_empty_call_refuted :
+  exists e rho,
+    fn_to_sympy (facts_arity ArityStrictNonEmpty) [w_allopt; w_caller0] 1 [SSym 1%N] = Some e /\
+    py_call [w_allopt; w_caller0] 1 [1#1] = Some (7#1) /\
+    Forall2 (fun m x => seval rho m = Some x) [SSym 1%N] [1#1] /\
+    seval rho e <> Some (7#1).
+Proof. exact lenient_empty_call_wrong. Qed.
+Print Assumptions C06_empty_call_refuted.
+
+Theorem C06_empty_call_repaired :
+  fn_to_sympy (facts_arity ArityStrict) [w_allopt; w_caller0] 1 [SSym 1%N] = None /\
+  ~ arity_ok (facts_arity ArityStrictNonEmpty) [w_allopt; w_caller0] /\
+  arity_ok (facts_arity ArityStrictNonEmpty) [w_saturation; w_hill].
+Proof. exact strict_refuses_empty_call. Qed.
+Print Assumptions C06_empty_call_repaired.
 
 (** CONTROL FLOW regression theorems ([wrong_on fs fd vs]: the model with facts fs translates fd to
     an expression whose value at vs differs from the function's).  Each is a shape the real code had
@@ -305,3 +363,15 @@ Example C06_constructs_nonvacuous :
     refuses_ss (mf_body cm_f_kw) false = true /\ refuses_ss (mf_body cm_f) false = false.
 Proof. exact constructs_witness. Qed.
 Print Assumptions C06_constructs_nonvacuous.
+
+(** non-vacuity with default arguments: `saturation(s, n=2.0)` called WITH the exponent from `hill_explicit`,
+    renamed onto the own names in the other order; [arity_ok] holds; saturation(2) alone uses the default *)
+Example C06_defaults_nonvacuous :
+  exists e,
+    arity_ok expected_facts [w_saturation; w_hill_explicit] /\
+    fn_to_sympy expected_facts [w_saturation; w_hill_explicit] 1 [SSym 3%N; SSym 1%N] = Some e /\
+    py_call [w_saturation; w_hill_explicit] 1 [2#1; 3#2] = Some (6#5) /\
+    py_call [w_saturation] 0 [2#1] = Some (4#5) /\
+    seval (fun x => assoc x [(3%N, 2#1); (1%N, 3#2)]) e = Some (6#5).
+Proof. exact defaults_nonvacuous. Qed.
+Print Assumptions C06_defaults_nonvacuous.
